@@ -462,8 +462,22 @@ SymDT.isoformat = lambda self, timespec=None: self
 def epochs(vc):
     vc.fmode(True)
     if not vc.symbolic:
-        for n in ("O-C05-epochs.timestamps", "O-C05-epochs.increasing", "O-C05-epochs.count", "O-C05-ticToc"):
-            vc.ensure(n, True)
+        # native replay: the real constructor with the database connection replaced by a recorder (any number of epochs up to 200)
+        import datetime
+        from resonaate.scenario.clock import ScenarioClock
+        start = datetime.datetime(1990, 1, 1) + datetime.timedelta(seconds=vc.int("start_off", 0, 86400 * 365 * 100))
+        dt = vc.int("dt", 1, 3600)
+        span = vc.int("span_steps", 0, 200) * dt + vc.int("span_extra", 0, 3600) % dt
+        inserted = []
+        vc.install(CK + "getDBConnection", lambda: _NS(insertData=lambda *e: inserted.extend(e)))
+        clk = ScenarioClock(start, float(span), float(dt))
+        n = len(inserted)
+        vc.ensure("O-C05-epochs.count", n >= 1 and (n - 1) * dt <= span < n * dt)
+        vc.ensure("O-C05-epochs.timestamps", all(e.timestampISO == (start + datetime.timedelta(seconds=k * dt)).isoformat(timespec="microseconds") for k, e in enumerate(inserted)))
+        vc.ensure("O-C05-epochs.increasing", all(float(inserted[k + 1].julian_date) > float(inserted[k].julian_date) for k in range(n - 1)))
+        before = float(clk.time)
+        clk.ticToc()
+        vc.ensure("O-C05-ticToc", float(clk.time) == before + dt)
         return
     y, m, d = _ymd(vc, split=False)
     h, mi, s = _hms(vc)
